@@ -361,6 +361,8 @@ class Tr:
         st, rest = stmts[0], stmts[1:]
         s = src(st)
         nxt = lambda i: self.block(rest, k, i)     # noqa: E731
+        if self.spec.get('stop_after') and s.startswith(self.spec['stop_after']):
+            nxt = lambda i: k(i)                   # noqa: E731   (the rest of the method is not part of this kernel)
         if self.spec.get('stop_before') and s.startswith(self.spec['stop_before']):
             return k(ind)
         if isinstance(st, ast.Expr) and isinstance(st.value, ast.Constant) and isinstance(st.value.value, str):
@@ -531,6 +533,7 @@ class Tr:
             fake = ast.parse('for %s in range(%s):\n    pass' % (v, n)).body[0]
             fake.body = st.body
             fake.orelse = st.orelse
+            fake._stop_after = bool(self.spec.get('stop_after') and src(st).startswith(self.spec['stop_after']))
             return self.for_loop(fake, rest, k, ind)
         if not (isinstance(it, ast.Call) and src(it.func) == 'range' and isinstance(st.target, ast.Name)):
             raise Unsupported('loop header ' + src(it))
@@ -556,7 +559,7 @@ class Tr:
         tup = '(' + ', '.join(carried) + ')'
         body = self.block(list(st.body), lambda i: i + tup + '\n', ind + '    ')
         return '%slet %s := Src.forIn %s %s (fun %s %s =>\n%s%s  )\n%s' % (
-            ind, tup, vals, tup, v, tup, body, ind, self.block(rest, k, ind))
+            ind, tup, vals, tup, v, tup, body, ind, (k(ind) if getattr(st, '_stop_after', False) or (self.spec.get('stop_after') and src(st).startswith(self.spec['stop_after'])) else self.block(rest, k, ind)))
 
 
 def find_func(tree, cls, func, which=0):
@@ -813,7 +816,7 @@ KERNELS = [
                     'chain._blobs': ('blobsW', '(tk, $i)'), 'chain._active_props': ('activeW', 'tk')},
          effects={'chain.reset_proposals()': 'resetW := Src.wr resetW tk ()'},
          carried=['positionsW', 'statsW', 'blobsW', 'activeW', 'resetW'],
-         start_at='new_positions = ', stop_before='self._temperature_acceptance[', join_ifs=True,
+         start_at='new_positions = ', stop_after='for tk, chain in enumerate(self.chains)', join_ifs=True,
          prelude='let positionsW : List ((Int × Int) × α) := []\n  let statsW : List ((Int × Int) × σ) := []\n'
                  '  let blobsW : List ((Int × Int) × β) := []\n  let activeW : List (Int × γ) := []\n'
                  '  let resetW : List (Int × Unit) := []',
@@ -943,7 +946,14 @@ def special(spec):
                 writes.append(src(n.targets[0].slice))
         if len(ii) != 1 or len(rows) != 2 or len(set(rows)) != 1 or set(writes) != {'ii'} or len(writes) != 3:
             raise Unsupported('row bookkeeping of swap_temperatures: ii=%d rows=%r writes=%r' % (len(ii), rows, writes))
-        rowexpr = tr.expr(ast.parse(rows[0], mode='eval').body)
+        rownode = ast.parse(rows[0], mode='eval').body
+        if isinstance(rownode, ast.Name) and rownode.id != 'ii':
+            # the row index kept in a local: its (single) definition is what is translated
+            defs = assigns_to(rownode.id)
+            if len(defs) != 1:
+                raise Unsupported('row index %s is assigned %d times' % (rownode.id, len(defs)))
+            rownode = defs[0]
+        rowexpr = tr.expr(rownode)
         return '%s\ndef %s %s : %s :=\n  let ii := %s\n  (ii, %s)\n' % (head, spec['name'], params, spec['ret'],
                                                                   tr.expr(ii[0]), rowexpr)
     if kind == 'rowsview':
